@@ -41,6 +41,7 @@ var advDts = []int64{int64(10 * time.Millisecond), int64(60 * time.Millisecond),
 func genC01(seed uint64, tier string) *Plan {
 	r := NewRng(seed, 1)
 	u := genUniverse(r)
+	u.EmptyDims = 0.04
 	p := &Plan{Prop: "C01", Seed: seed, World: "S"}
 	p.Cfg.VirtualTime = r.Bool(0.5)
 	p.Cfg.CoalesceNanos = int64(time.Millisecond)
